@@ -8,7 +8,7 @@ using namespace model;
 
 void run_c05(sim::RunCtx& ctx) {
     gen::g_row_cap = 0;
-    gen::FlatOpts fo; fo.allow_repeated = true; fo.allow_unsigned = true;
+    gen::FlatOpts fo; fo.allow_repeated = true; fo.allow_unsigned = true; fo.allow_int96 = true;
     gen::WritePlan p = gen::gen_write_plan(fo);
     if (p.codec == 5 && sim::avoid_known("codec_lz4_legacy_tag")) p.codec = 7;
     common::apply_benign_knobs();
@@ -38,6 +38,13 @@ void run_c05(sim::RunCtx& ctx) {
         SIM_COUNT(w.close_status == CARQUET_OK ? "probe.invalid_call_refused_writer_carried_on" : "probe.invalid_call_refused_writer_gave_up");
     }
     if (w.close_status != CARQUET_OK || !w.created) { ctx.refusal = true; SIM_COUNT("refusal.close_not_ok"); return; }
+    if (!w.all_ok) {
+        // a call was refused (an INT96 batch, ...) and the caller carried on to close, which says OK: "whenever close returns OK" the
+        // file has to be one the independent reader accepts - whatever the refused call left behind must not have made it into the file
+        ref::Parsed Pr = ref::parse_file(w.image.data(), w.image.size());
+        SIM_CHECK(Pr.ok, ("peer_rejects." + Pr.error_class).c_str(), "writer call #%d was refused (status %d), the caller carried on, carquet_writer_close returned OK, and the independent reader rejects the file: %s", w.first_bad_call, (int)w.first_bad_status, Pr.error.c_str());
+        SIM_COUNT("probe.close_ok_after_refused_call_file_valid");
+    }
     if (!w.all_ok) { ctx.refusal = true; SIM_COUNT("refusal.writer_call_not_ok"); return; }
     sim::L.bytes(w.image.data(), w.image.size());
     ref::Parsed P = ref::parse_file(w.image.data(), w.image.size());
